@@ -385,13 +385,19 @@ Proof.
   rewrite E. simpl. f_equal. apply IH. intros h0 Hh0. apply H. now right.
 Qed.
 
-Theorem reader_accepts : forall es trailer, wf_file es -> List.length trailer = 20%nat ->
+(* the strong form also exposes where the reader believes every declared chunk to be:
+   at the offset the encoder's table assigns to it (mkT), with the declared size *)
+Theorem reader_accepts_strong : forall es trailer, wf_file es -> List.length trailer = 20%nat ->
+  let tbl := chunk_table es (N.of_nat (List.length (sorted_of es))) in
+  let off0 := 8 + (N.of_nat (List.length tbl) + 1) * 12 in
   exists fi, open_file (encode es ++ trailer) = Ok fi /\
     ncommits fi = N.of_nat (List.length (sorted_of es)) /\
     f_gen2 fi = has_gen2 es /\
-    f_fanout fi = fanout_of (sorted_of es).
+    f_fanout fi = fanout_of (sorted_of es) /\
+    (forall s off, In (s, ct_of s, off) (mkT tbl off0) -> off_of (f_off fi) (ct_of s) = Z.of_N off) /\
+    (forall s sz, In (s, sz) tbl -> off_of (f_size fi) (ct_of s) = Z.of_N sz).
 Proof.
-  intros es trailer [Hwf [Hbytes [Hn Hsz]]] Htr.
+  intros es trailer [Hwf [Hbytes [Hn Hsz]]] Htr. cbv zeta.
   destruct (encode_layout es Hwf) as [payloads [Henc [Hpay Hfan]]].
   set (sorted := sorted_of es) in *. set (n := N.of_nat (List.length sorted)) in *.
   set (tbl := chunk_table es n) in *. set (k := N.of_nat (List.length tbl)) in *.
@@ -516,8 +522,19 @@ Proof.
       * exfalso. unfold off_of, offs in Hpos. rewrite fold_set_notin in Hpos; [simpl in Hpos; lia | simpl; lia |].
         unfold T. rewrite mkT_cts. now apply I3'.
     + rewrite Hoff_first, <- Hoff0. rewrite Hfile2. rewrite <- Hfo_len. apply read_fanout_spec. exact Hfo_le.
-  - cbn [ncommits f_fanout f_gen2]. split; [exact Hfo255|]. split; [|reflexivity].
-    destruct (has_gen2 es) eqn:Eg.
-    + change 3%nat with (ct_of sig_GDA2). pose proof (Hoff_pos _ _ (I3 eq_refl)). lia.
-    + unfold off_of, offs. rewrite fold_set_notin; [reflexivity | simpl; lia |]. unfold T. rewrite mkT_cts. now apply I3'.
+  - cbn [ncommits f_fanout f_gen2 f_off f_size]. split; [exact Hfo255|]. split; [|split; [reflexivity|]].
+    + destruct (has_gen2 es) eqn:Eg.
+      * change 3%nat with (ct_of sig_GDA2). pose proof (Hoff_pos _ _ (I3 eq_refl)). lia.
+      * unfold off_of, offs. rewrite fold_set_notin; [reflexivity | simpl; lia |]. unfold T. rewrite mkT_cts. now apply I3'.
+    + split; [exact Hoffs|]. intros s sz Hin. rewrite (i64_small _ Hup). now apply Hsizes.
+Qed.
+
+Theorem reader_accepts : forall es trailer, wf_file es -> List.length trailer = 20%nat ->
+  exists fi, open_file (encode es ++ trailer) = Ok fi /\
+    ncommits fi = N.of_nat (List.length (sorted_of es)) /\
+    f_gen2 fi = has_gen2 es /\
+    f_fanout fi = fanout_of (sorted_of es).
+Proof.
+  intros es trailer Hwf Htr. destruct (reader_accepts_strong es trailer Hwf Htr) as [fi [A [B [C [D _]]]]].
+  exists fi. auto.
 Qed.
